@@ -936,6 +936,36 @@ func (c *Ctx) ruleConstruction(rule string) {
 		okTags = a.base.equal(constForm(0)) && a.count.equal(fmin) && b.base.equal(fmin) && b.base.add(b.count, 1).equal(fmax)
 	}
 	c.Check(rule, "NewGenginePool#tags", okTags, f.Pos(), "wrapper tags must be the iteration number for the poolMinLen initial wrappers and poolMinLen + the iteration number for the poolMaxLen-poolMinLen additional ones (a bijection onto [0,max)): %s", desc)
+	// one engine per instance: the result map lives in the engine object, each wrapper gets its own
+	// NewGengine() made in the iteration that makes the wrapper, and the field is never stored again
+	nEng, okEng, engWhy := 0, true, ""
+	for _, g := range c.AllFns {
+		if g.Pkg == nil {
+			continue
+		}
+		gx := c.Index(g)
+		eachInstr(g, func(in ssa.Instruction) {
+			st, ok := in.(*ssa.Store)
+			if !ok {
+				return
+			}
+			fa, ok := st.Addr.(*ssa.FieldAddr)
+			if !ok || structName(fa.X.Type()) != "gengineWrapper" || fieldOf(fa).Name() != "gengine" {
+				return
+			}
+			nEng++
+			if rootOf(g) != f {
+				okEng, engWhy = false, "the engine of a wrapper is replaced in "+fnName(rootOf(g))
+				return
+			}
+			L := gx.InnermostLoop(st.Block())
+			ne, isCall := gx.Origin(st.Val).(*ssa.Call)
+			if !isCall || !calleeIs(ne, pEngine, "", "NewGengine") || L == nil || !L.Blocks[ne.Block()] {
+				okEng, engWhy = false, "the engine stored into a wrapper is not a NewGengine() made in the iteration that makes the wrapper (one engine object, hence one result map, would serve several instances)"
+			}
+		})
+	}
+	c.Check(rule, "NewGenginePool#own-engine-per-instance", okEng && nEng >= 2, f.Pos(), "every wrapper must get its own engine (%d store(s) of the field found): %s", nEng, orStr(engWhy, "ok"))
 	// one data context and rule builder per instance, created inside the loop, for every
 	// position 0..poolMaxLen-1
 	okPriv := false
@@ -1102,6 +1132,22 @@ func (c *Ctx) armPoolError(rule string, pick func(method string) bool, min int) 
 		return pick(m)
 	}
 	c.ruleLifecycle(rule, nil)
+	c.only = nil
+	c.Min(rule, min)
+}
+
+// armPoolArgs arms, under another property's rule name, the same-name dispatch of the pool's execute methods:
+// the method calls the engine method of its own name with its own arguments, each in its place (the
+// stage sizes N and M, the error policy, the names, the tag). pick selects the methods by name.
+func (c *Ctx) armPoolArgs(rule string, pick func(method string) bool, min int) {
+	c.only = func(key string) bool {
+		if !strings.HasSuffix(key, "#same-name") {
+			return false
+		}
+		m := strings.TrimSuffix(strings.TrimPrefix(key, "GenginePool."), "#same-name")
+		return pick(m)
+	}
+	c.ruleModelTable(rule)
 	c.only = nil
 	c.Min(rule, min)
 }
